@@ -252,7 +252,14 @@ func (w *witness) ReadFrom(r io.Reader) (n int64, err error) {
 	}
 
 	n += m
-	return n, err
+	if err != nil {
+		return n, err
+	}
+	// the header must agree with the vector that follows it
+	if v, ok := w.vector.(interface{ Len() int }); ok && uint64(v.Len()) != uint64(w.nbPublic)+uint64(w.nbSecret) {
+		return n, fmt.Errorf("invalid witness: header declares %d public and %d secret values, vector holds %d", w.nbPublic, w.nbSecret, v.Len())
+	}
+	return n, nil
 }
 
 // MarshalBinary encodes the number of public, number of secret and the fr.Vector.
